@@ -24,7 +24,13 @@ def handleA (st : St) (n : Nat) (toks : List String) : Result := Id.run do
     -- the harness puts the id into a URL: what reaches the router is the id up to '?' / '#', percent-decoded;
     -- ids that are not a single clean path segment never match the route
     let clean := id.all (fun c => c != 47 && c != 37 && c != 63 && c != 35) && id != B.ofString "." && id != B.ofString ".."
-    let r := if clean then Api.getCheckpointF readFails store id else { status := 404, body := [] }
+    -- the code the injected read error carries (rcode=; only with fault g): plain errors and codes the switch of
+    -- `httpForCode` does not name are `other`
+    let rcode := (get "rcode").getD "plain"
+    let code : Api.Code := match rcode with
+      | "NotFound" => .notFound | "AlreadyExists" => .alreadyExists | "FailedPrecondition" => .failedPrecondition
+      | "InvalidArgument" => .invalidArgument | "Unauthenticated" => .unauthenticated | _ => .other
+    let r := if clean then Api.getCheckpointE (if readFails then some code else none) store id else { status := 404, body := [] }
     let mclient := match Api.client r with
       | .bytes b => "ok:" ++ hx b | .notExist => "notexist" | .err => "err"
     let mut ok := true
@@ -43,14 +49,15 @@ def handleA (st : St) (n : Nat) (toks : List String) : Result := Id.run do
     -- C16 monitors
     let held := store.get id
     if readFails then
+      st := st.bump s!"api.readerr.{rcode}"
       -- a failing read: an error status is the only truthful answer for a routed ID; 200 must still be the stored bytes
-      if clean && Api.routeMatch id && istatus == 404 then
+      if clean && Api.routeMatch id && istatus == 404 && code != .notFound then
         let f := fail st n "C16" "a failing storage read was served as 404 'no checkpoint' (the client turns that into the does-not-exist signal feeders act on)"
         st := f.st; outs := outs ++ f.out
       if istatus == 200 && held != some ibody then
         let f := fail st n "C16" "GET returned 200 with bytes that are not the stored checkpoint of that log (during a failing read)"
         st := f.st; outs := outs ++ f.out
-      if clean && Api.routeMatch id && iclient == "notexist" then
+      if clean && Api.routeMatch id && iclient == "notexist" && code != .notFound then
         let f := fail st n "C16" "the bundled client reported 'does not exist' although the witness's storage read failed"
         st := f.st; outs := outs ++ f.out
       return { st, out := outs }
